@@ -178,8 +178,10 @@ def build(cfg):
         objects.append(src)
     for n, d in enumerate(cfg.get("detectors", [])):
         dshape = tuple(h - l for l, h in zip(d["lo"], d["hi"]))
-        kwd = dict(name=d.get("name", f"det{n}"), partial_grid_shape=dshape, switch=make_switch(d.get("switch")), plot=False)
         k = d["kind"]
+        # records in double precision so that run-to-run relations can be compared at float64 round-off
+        kwd = dict(name=d.get("name", f"det{n}"), partial_grid_shape=dshape, switch=make_switch(d.get("switch")), plot=False,
+                   dtype=jnp.complex128 if k == "phasor" else jnp.float64)
         if k == "energy":
             det = fdtdx.EnergyDetector(**kwd, as_slices=False, reduce_volume=d.get("reduce", False))
         elif k == "field":
@@ -319,7 +321,7 @@ def obs_state(E, H, k):
     return {"Er": er, "Ei": ei, "Hr": hr, "Hi": hi, "dE": dE, "dH": dH}, max(d1, d2)
 
 
-def int_states(cfg, rs, n_dense=4, n_pairs=6, basis=True, complex_ok=True):
+def int_states(cfg, rs, n_dense=4, n_pairs=6, basis=True, complex_ok=True, n_basis=None):
     """integer initial states respecting the wall conditions: admissible unit states, pairs, dense random states"""
     shape = (3, *cfg["shape"])
     n = int(np.prod(shape))
@@ -335,7 +337,8 @@ def int_states(cfg, rs, n_dense=4, n_pairs=6, basis=True, complex_ok=True):
         return v[:n].reshape(shape), v[n:].reshape(shape)
 
     if basis:
-        for k in adm:
+        sel = adm if (n_basis is None or n_basis >= len(adm)) else sorted(rs.choice(adm, size=n_basis, replace=False))
+        for k in sel:
             out.append(mk([(k, 1)]))
     for _ in range(n_pairs):
         i, j = rs.choice(adm, size=2, replace=False)
@@ -391,3 +394,83 @@ def sweep_configs():
             kinds[(a + 2) % 3] = 9
             out.append((shape, kinds))
     return out
+
+
+# ------------------------------------------------------------------ whole runs through the public run_fdtd
+def run_pipeline(cfg):
+    """build the scene and run fdtdx.run_fdtd; returns (E, H, {detector: {key: array}}) as numpy"""
+    import fdtdx
+
+    obj, arrays, config = build(cfg)
+    _, out = fdtdx.run_fdtd(arrays, obj, config, show_progress=False)
+    dets = {dn: {k: np.asarray(v) for k, v in sorted(d.items())} for dn, d in sorted(out.detector_states.items())}
+    return np.asarray(out.fields.E), np.asarray(out.fields.H), dets
+
+
+def rel_dev(x, ref, scale):
+    """max |x - ref| / scale  (inf if shapes differ or not finite)"""
+    x, ref = np.asarray(x), np.asarray(ref)
+    if x.shape != ref.shape or not (np.all(np.isfinite(x)) and np.all(np.isfinite(ref))):
+        return float("inf")
+    if x.size == 0:
+        return 0.0
+    s = float(scale)
+    d = float(np.max(np.abs(x - ref)))
+    return 0.0 if d == 0.0 else (d / s if s > 0 else float("inf"))
+
+
+def pipeline_scene(rng, quick=True):
+    """random scene for whole-run comparisons: absorbing / periodic / PEC / PMC faces, 1-3 sources, all detector kinds"""
+    pml = 3
+    kinds, shape = [], []
+    for a in range(3):
+        r = rng.random()
+        if r < 0.4:
+            kinds.append(5 + 3 * 3 + 3)  # placeholder for "pml both" (handled through pml_faces)
+        elif r < 0.7:
+            kinds.append(1)
+        else:
+            kinds.append(rng.choice([9, 10, 12, 13]))
+    pml_faces = {}
+    real_kinds = []
+    for a, k in enumerate(kinds):
+        if k == 17:
+            pml_faces[FACES[2 * a]] = "pml"
+            pml_faces[FACES[2 * a + 1]] = "pml"
+            real_kinds.append(9)
+            shape.append(rng.randint(9, 10))
+        else:
+            real_kinds.append(k)
+            shape.append(rng.randint(5, 7))
+    lo = [pml if FACES[2 * a] in pml_faces else 1 for a in range(3)]
+    hi = [shape[a] - (pml if FACES[2 * a] in pml_faces else 1) for a in range(3)]
+    c = [s // 2 for s in shape]
+    T = rng.randint(10, 14)
+    srcs = []
+    for n in range(rng.randint(1, 3)):
+        kind = rng.choice(["dipole", "mdipole", "plane", "gauss"])
+        s = {"kind": kind, "name": f"s{n}", "wl": rng.choice([500e-9, 800e-9]), "amp": rng.choice([1.0, 2.0]),
+             "switch": rng.choice([{}, {}, {"interval": 2}, {"fixed_on_time_steps": sorted(rng.sample(range(T), T // 2))}]),
+             "profile": rng.choice(["single", "gauss"])}
+        if kind in ("dipole", "mdipole"):
+            s["pos"] = [rng.randint(lo[a], hi[a] - 1) for a in range(3)]
+            s["pol"] = rng.randrange(3)
+        else:
+            ax = rng.randrange(3)
+            s["axis"], s["at"], s["dir"] = ax, rng.randint(lo[ax], hi[ax] - 1), rng.choice(["+", "-"])
+            s["pol"] = (ax + rng.choice([1, 2])) % 3
+        srcs.append(s)
+    dlo = [max(lo[a], c[a] - 1) for a in range(3)]
+    dhi = [min(hi[a], c[a] + 1) for a in range(3)]
+    flat_hi = list(dhi)
+    flat_hi[2] = dlo[2] + 1
+    dets = [
+        {"kind": "field", "name": "d_field", "lo": dlo, "hi": dhi, "exact": rng.random() < 0.5},
+        {"kind": "phasor", "name": "d_phasor", "lo": dlo, "hi": dhi, "wl": 800e-9},
+        {"kind": "energy", "name": "d_energy", "lo": dlo, "hi": dhi},
+        {"kind": "poynting", "name": "d_poynting", "lo": dlo, "hi": flat_hi, "axis": 2},
+    ]
+    cfg = {"shape": shape, "kinds": real_kinds, "pml_faces": pml_faces, "pml": pml, "T": T, "cf": 0.99, "sources": srcs, "detectors": dets}
+    if rng.random() < 0.6:
+        cfg["slab"] = {"lo": [lo[0], lo[1], c[2]], "hi": [hi[0], hi[1], c[2] + 1], "eps": rng.choice([2.0, 4.0]), "mu": rng.choice([1.0, 1.5])}
+    return cfg
